@@ -114,10 +114,12 @@ class SideState:
         if k == "exists":
             if v == CORRUPT and not self.is_corrupt:
                 # see comment on the SideState.is_corrupt method for more information on the corrupt state
+                self._parent.updated(self._side, k, v)
                 self._saved_exists = self.exists
                 self._exists = v
                 return
             if v != CORRUPT and self.is_corrupt:
+                self._parent.updated(self._side, k, v)
                 self._saved_exists = self._translate_exists(v)
                 return
 
